@@ -30,7 +30,7 @@ COMPONENTS = {"real": ["pfhedge.nn.functional bs_* functions through BlackSchole
 ASSUMPTIONS = ["price at expiry compared with the certain payoff within 1e-6 (float32) / 1e-12 (float64) relative to strike scale; paths whose "
                "terminal (resp. extreme) price is within 1e-6 relative of the strike are skipped for binaries",
                "stand-alone limit clauses of the property are not decided (partial claim)"]
-PROBES = ["flat_market", "shocked_far_from_strike", "maturity_price_is_payoff", "bs_hedger", "ww_hedger", "bound_price", "bound_delta",
+PROBES = ["volatility_changed_on_live_stock", "flat_market", "shocked_far_from_strike", "maturity_price_is_payoff", "bs_hedger", "ww_hedger", "bound_price", "bound_delta",
           "listed_hedge_pl", "put", "cost_positive", "large_dt", "tiny_dt", "delta_limit_checked"]
 KINDS = ["EuropeanOption", "EuropeanBinaryOption", "AmericanBinaryOption", "LookbackOption"]
 
@@ -64,8 +64,18 @@ def generate(rng):
     world = {"primaries": [prim], "derivatives": [d, listed], "models": [], "criteria": [], "hedgers": []}
     ops = [{"op": "simulate", "n_paths": rng.npaths([1, 2, 4, 8]), "torch_seed": rng.seed31()}]
     for _ in range(rng.randint(2, 7)):
-        k = rng.wchoice([("hedger", 5), ("bound", 4), ("shock", 2), ("listed_pl", 2), ("simulate", 1)])
-        if k == "hedger":
+        k = rng.wchoice([("hedger", 5), ("bound", 4), ("shock", 2), ("listed_pl", 2), ("simulate", 1),
+                         ("resigma", 3 if pk in ("BrownianStock", "LocalVolatilityStock") else 0)])
+        if k == "resigma":
+            # the volatility is changed on the live stock (to zero or back to an ordinary level) and the market re-simulated with
+            # the same shape: everything afterwards is judged under the current volatility
+            if rng.chance(0.7):
+                ops.append({"op": "bound", "target": rng.choice(["d0", "d1"]), "method": "price"})
+            ops.append({"op": "resigma", "sigma": rng.choice([0.0, 0.0, 0.2, 0.4]), "torch_seed": rng.seed31()})
+            ops.append({"op": "bound", "target": rng.choice(["d0", "d1"]), "method": rng.choice(["price", "price", "delta"])})
+            if rng.chance(0.5):
+                ops.append({"op": "hedger", "model": rng.choice(["bs", "ww"]), "a": 1.0, "which": rng.choice(["hedge", "pl"])})
+        elif k == "hedger":
             ops.append({"op": "hedger", "model": rng.choice(["bs", "ww"]), "a": rng.choice([0.5, 1.0, 2.0]), "which": rng.choice(["hedge", "pl"])})
         elif k == "bound":
             ops.append({"op": "bound", "target": rng.choice(["d0", "d1"]), "method": rng.choice(["price", "price", "delta"])})
@@ -125,6 +135,30 @@ def _execute(program, stats, hist):
     dtv = program["world"]["primaries"][0]["params"]["dt"]
     shocked = False
     for op in program["ops"]:
+        if op.get("op") == "resigma":
+            stats.op("resigma")
+            try:
+                n_now = p0.spot.shape[0]
+            except Exception:
+                continue
+            if pkind == "BrownianStock":
+                p0.sigma = op["sigma"]
+                if op["sigma"] == 0.0:
+                    p0.mu = 0.0
+            else:
+                from ..world import make_sigma_fn
+                p0.sigma_fn = make_sigma_fn("zero" if op["sigma"] == 0.0 else "const:%s" % op["sigma"])
+            torch.manual_seed(op["torch_seed"])
+            try:
+                world.derivatives["d0"].simulate(n_paths=n_now)
+            except Exception as e:
+                raise Inconclusive("simulate raised %r" % (e,))
+            flat = op["sigma"] == 0.0 and (pkind != "BrownianStock" or float(p0.mu) == 0.0)
+            shocked = False
+            stats.probe("volatility_changed_on_live_stock")
+            stats.fault("F3_reparameterised_live_object")
+            hist.add(op="resigma", sigma=op["sigma"], spot=thash(p0.spot))
+            continue
         try:
             shocked = _one_op(op, world, program, stats, hist, p0, dspecs, flat, pkind, dtv, shocked)
         except Violation as v:
